@@ -328,13 +328,7 @@ where
                     let prior = *pstack.last().unwrap();
                     pstack.push(self.stable.goto(prior, ridx).unwrap());
 
-                    let span = if spans.is_empty() {
-                        Span::new(0, 0)
-                    } else if pop_idx - 1 < spans.len() {
-                        Span::new(spans[pop_idx - 1].start(), spans[spans.len() - 1].end())
-                    } else {
-                        Span::new(spans[spans.len() - 1].start(), spans[spans.len() - 1].end())
-                    };
+                    let span = reduce_span(spans, pop_idx - 1);
                     spans.truncate(pop_idx - 1);
                     spans.push(span);
 
@@ -440,19 +434,7 @@ where
                     let pop_idx = pstack.len() - self.grm.prod(pidx).len();
                     if let Some(ref mut astack_uw) = *astack {
                         if let Some(ref mut spans_uw) = *spans {
-                            let span = if spans_uw.is_empty() {
-                                Span::new(0, 0)
-                            } else if pop_idx - 1 < spans_uw.len() {
-                                Span::new(
-                                    spans_uw[pop_idx - 1].start(),
-                                    spans_uw[spans_uw.len() - 1].end(),
-                                )
-                            } else {
-                                Span::new(
-                                    spans_uw[spans_uw.len() - 1].start(),
-                                    spans_uw[spans_uw.len() - 1].end(),
-                                )
-                            };
+                            let span = reduce_span(spans_uw, pop_idx - 1);
                             spans_uw.truncate(pop_idx - 1);
                             spans_uw.push(span);
 
@@ -603,6 +585,27 @@ where
             }
         }
         (laidx, pstack)
+    }
+}
+
+/// The span of a production whose symbols have the spans `spans[from..]`: from the start of the
+/// first to the end of the last symbol that matched some input. If no symbol did (in particular
+/// for an empty production), the span is zero-length and placed where the production sits: at the
+/// start of its first symbol or, failing that, at the end of whatever precedes it.
+fn reduce_span(spans: &[Span], from: usize) -> Span {
+    let syms = &spans[from..];
+    match (
+        syms.iter().find(|x| !x.is_empty()),
+        syms.iter().rfind(|x| !x.is_empty()),
+    ) {
+        (Some(first), Some(last)) => Span::new(first.start(), last.end()),
+        _ => {
+            let at = match syms.first() {
+                Some(x) => x.start(),
+                None => spans[..from].last().map_or(0, |x| x.end()),
+            };
+            Span::new(at, at)
+        }
     }
 }
 
